@@ -16,6 +16,7 @@ import (
 	"sort"
 	"strconv"
 	"strings"
+	"sync"
 	"sync/atomic"
 	"syscall"
 	"time"
@@ -94,15 +95,21 @@ func child(p *core.Prop) {
 	c := &core.Ctx{Prop: p.ID, Part: part.Name, Tier: *fTier, Seed: *fSeed, Workers: w, TmpDir: *fTmp, Verbose: *fVerbose}
 	r := core.NewResult()
 	t0 := time.Now()
+	var flushMu sync.Mutex
 	flush := func() {
 		if ok, bad := atomic.LoadInt64(&lab.EstablishOK), atomic.LoadInt64(&lab.EstablishFailed); ok+bad > 0 {
 			r.SetCount("lab.establish_ok", int(ok))
 			r.SetCount("lab.establish_failed", int(bad))
 		}
+		flushMu.Lock()
+		defer flushMu.Unlock()
 		wr := r.ToWire()
 		wr.WallS = core.Since(t0)
 		b, _ := json.Marshal(wr)
-		if err := os.WriteFile(*fOut, b, 0644); err != nil {
+		// (written aside and renamed: a child killed in the middle of a flush leaves the previous complete file)
+		if err := os.WriteFile(*fOut+".tmp", b, 0644); err == nil {
+			err = os.Rename(*fOut+".tmp", *fOut)
+		} else {
 			fmt.Fprintln(os.Stderr, err)
 			os.Exit(2)
 		}
@@ -316,6 +323,10 @@ func parent(p *core.Prop) int {
 				}
 			}
 			continue
+		}
+		if timedOut {
+			// the child had flushed intermediate results before it got stuck: what it observed counts, the run is incomplete
+			broken = append(broken, fmt.Sprintf("part %s: watchdog (%ds) fired — the results flushed so far are merged, the run is incomplete (inconclusive unless a violation was observed)", part.Name, to))
 		}
 		merged.Evals += w.Evals
 		for _, h := range w.Nontrivial {
